@@ -212,6 +212,15 @@ func newTunnelChannel(stream tunnelStreamClient, tunnelMetadata metadata.MD, ser
 		awaitSettings:       make(chan struct{}),
 	}
 	go c.recvLoop()
+	go func() {
+		// If the stream's context ends (cancellation, deadline, transport
+		// failure), shut the channel down right away instead of relying on
+		// the receive loop to observe the error: in revision zero the loop
+		// can be parked handing a frame to a stream nobody is reading, and
+		// then every other RPC on the channel would hang forever.
+		<-ctx.Done()
+		c.close(ctx.Err())
+	}()
 
 	// make sure we've gotten settings from the server before we return
 	select {
